@@ -47,7 +47,7 @@ CONSTANTS
   IgnoreLimit     \* FALSE the limit is not forwarded
 
 VARIABLES
-  n, E, C,        \* the graph (constant after Init): size, edges, transitive closure
+  n, E, C,        \* the graph (constant after Init): size, edges, reachability map
   cnt,            \* predecessor_counts
   readyQ, readyTx,\* ready channel buffer; the queuer still holds its sender
   doneQ, doneTx,  \* done channel buffer; the scheduler still holds its sender
@@ -102,7 +102,7 @@ AllDags(k) == SUBSET { <<a, b>> \in (1..k) \X (1..k) : a < b }
 Init ==
   /\ n \in 0..N
   /\ E \in AllDags(n)
-  /\ C = Closure(n, E)
+  /\ C = Reach(n, E)
   /\ cnt = [f \in 1..n |->
               IF Order = "fwd" \/ RevIncoming THEN Cardinality(Preds(E, f)) ELSE Cardinality(Succs(E, f))]
   \* stream_setup_init: all roots preloaded (order abstracted: any permutation)
